@@ -194,10 +194,10 @@ func checkC03(c *Ctx) {
 	// frame's hole (its alphabet has no brackets, so an edit cannot escape the frame), hence an edited text of at most
 	// the bound's length is valid iff TLC enumerated it ----
 	type focus struct {
-		name       string
-		pre, suf   int // frame tokens before and after the hole
-		alphabet   []string
-		bound      int
+		name     string
+		pre, suf int // frame tokens before and after the hole
+		alphabet []string
+		bound    int
 	}
 	fb := 11
 	if c.Thorough() {
